@@ -277,6 +277,10 @@ func checkC03(c *Ctx) {
 		}
 	}
 	c.c03ExpiryErrorTypes()
+	// "expired within MaxStaleness / beyond it": the instant Get compares with MaxStaleness is the ExpiredAt() of the read error, which is
+	// tsTime(entry.E); tsTime inverts ts exactly (C10 R10.5) — a view that is up to a second early turns a just-expired value into a
+	// too-stale one
+	c.borrow("C10", func() { c.c10Views() }, func(o *coreObl) (string, bool) { return "R03.3", o.Rule == "R10.5" })
 	// the options of the documented table (SyncUpdate, SyncRead, FailHard, MaxStaleness, …) are the ones the user configured: the
 	// constructors complete zero fields only, they do not derive one option from another
 	c.configOverwritesIn("R03.1", "NewFailover", "FailoverConfig", nil)
